@@ -43,6 +43,8 @@ func checkC06(c *Ctx, r *Report) {
 	originQualified(c, r, "C06.R2.origin-qualified", "the origin given as the parser option (and inherited by $INCLUDE and $GENERATE sub-parsers) is not the name relative names are completed with as it was given: it is not fully qualified, or its case is changed")
 	classTtlStates(c, r, "C06.R3.class-ttl-states")
 	borrow(c, r, c05R5, "C05.R5.ttl-range", "C06.R3.ttl-range", 1, "stringToTTL accepts every value of the 32-bit field", nil, "the largest TTL, in digits or in units, is refused on a record line, in $TTL, in a $GENERATE template and as an SOA timer")
+	generateEscapesKept(c, r, "C06.R4.generate-escapes-kept")
+	genericRdlengthZero(c, r, "C06.R3.generic-rdlength-zero")
 }
 
 // mustPassExit is mustPass restricted to the exits accepted by isExit.
